@@ -1195,8 +1195,58 @@ class Machine:
         self.last_invalid = key
 
 
+# ----------------------------------------------------------------------------- known-finding probes (C08)
+# The adaptive strategies choose their transition windows with int() of gamma*a/(1+gamma), gamma = ratio of neighbouring
+# steps of the averages.  On a ramp gamma is 1 in exact arithmetic and a/2 sits exactly on the truncation boundary, so the
+# last-ulp rounding of the differences - which a shift or a scale changes - decides between a window of 5 and of 4
+# samples: "transform, then pipeline" and "pipeline, then transform" then differ by about 1 % of max|y|.  That is a
+# genuine violation of the commutation clause on ordinary input (the default strategy, three- and four-point ramps); a
+# repair would have to change how windows are chosen, so it is recorded (known_findings.json) rather than made.  The
+# seeded R5 search keeps to exactly representable maps on lattice data for these two strategies, where no rounding
+# exists to flip a tie; these fixed probes run the listed inputs so that each run states whether the finding persists.
+KNOWN_PROBES = {}
+for _y, _op, _arg in (([0.1, 0.2, 0.3], "shift_y", 1), ([0.1, 0.2, 0.3], "scale_y", 3), ([10, 12, 14, 16], "scale_y", 0.1)):
+    for _s in ADAPTIVE:
+        KNOWN_PROBES[f"{_s}:y={_y}:{_op}({_arg})"] = (_y, _op, _arg, _s)
+
+
+def run_known_probe(params, st, keep_log=False):
+    res = R.Result()
+    isolate.reset_library_state()
+    name = params["name"]
+    y, op, arg, strategy = KNOWN_PROBES[name]
+    W = importlib.import_module("traffic_weaver").Weaver
+    cls = getattr(importlib.import_module("traffic_weaver.rfa"), strategy)
+    with warnings.catch_warnings():
+        warnings.simplefilter("ignore")
+        a = W(None, list(y))
+        getattr(a, op)(arg)
+        a.recreate_from_average(10, rfa_class=cls).integral_match()
+        b = W(None, list(y))
+        b.recreate_from_average(10, rfa_class=cls).integral_match()
+        getattr(b, op)(arg)
+    ay, by = np.asarray(a.get()[1], dtype=float), np.asarray(b.get()[1], dtype=float)
+    rel = float(np.max(np.abs(ay - by)) / np.max(np.abs(by))) if ay.shape == by.shape else float("inf")
+    history = [f"Weaver(None, {y})", f"{op}({arg})", f"recreate_from_average(10, {strategy})", "integral_match()",
+               f"|| other order: relative difference {rel:.3g}"]
+    if rel > 1e-9:
+        res.violation = {"cls": "C08/R5/adaptive-window-tie", "key": f"probe={name}",
+                         "msg": f"{op}({arg}) before vs after recreate({strategy}, n=10)+match on y={y}: the two orders differ by "
+                                f"{rel:.3g} of max|y| (a window tie decided by rounding)"}
+    res.choices = list(st.rec)
+    res.digest = int.from_bytes(hashlib.sha256(repr((name, round(rel, 12))).encode()).digest()[:8], "big")
+    res.nontrivial = True
+    res.steps = 4
+    res.stats["known-finding-probes"] += 1
+    res.sample = {"initial": {"y": y}, "history": history}
+    res.log = history if keep_log else None
+    return res
+
+
 # ----------------------------------------------------------------------------- running one history
 def run_history(mode, params, st, keep_log=False):
+    if params.get("gen") == "known-probe":
+        return run_known_probe(params, st, keep_log)
     res = R.Result()
     isolate.reset_library_state()
     M = Machine(st, mode, keep_log)
@@ -1500,6 +1550,7 @@ class Engine:
         if self.PROPERTY == "C08":
             depth = 2 if tier == "quick" else 3
             units += [{"gen": "exhaustive-prefix", "first": i, "depth": depth} for i in range(len(ALPHABET))]
+            units += [{"gen": "known-probe", "name": name} for name in sorted(KNOWN_PROBES)]
         n = {"C08": (60000, 1500000), "C09": (40000, 1200000), "C20": (30000, 800000)}[self.PROPERTY]
         import os
         count = int(os.environ.get("VERIF_HISTORIES", "0")) or (n[0] if tier == "quick" else n[1])
